@@ -15,7 +15,7 @@ use serde_json::{json, Value};
 pub const SPEC: PropSpec = PropSpec {
     id: "C02",
     level: "exploration",
-    rule: "Cases = (input bytes, configuration, cut set, pending script). For each case the trace of Reader::read_event over the slice is the baseline and the traces of read_event_into over a BufRead that delivers the pieces given by the cut set, and of read_event_into_async over an AsyncBufRead that additionally answers Poll::Pending according to the script, must be identical entry by entry (event or error compared structurally, buffer_position before and after, error_position), including 3 calls after Eof. Exhaustive: every byte string up to length N over the 13 markup bytes with piece size 1 and one random cut set; ALL 2^(n-1) cut sets for every atom sequence (<= 3 atoms) and pool document of at most 11-13 bytes; all pending scripts with <= 2 Pendings per piece for inputs of <= 4 pieces. Random: grammar documents, mutants, corpus with piece sizes 1,2,3,7 and random cut sets/scripts; 4 configurations. When the input starts with a possible BOM / UTF-16 signature byte the first piece is forced to >= 4 bytes. Non-trivial = input contains '<' and at least one cut.",
+    rule: "Cases = (input bytes, configuration, cut set, pending script). For each case the trace of Reader::read_event over the slice is the baseline and the traces of read_event_into over a BufRead that delivers the pieces given by the cut set, and of read_event_into_async over an AsyncBufRead that additionally answers Poll::Pending according to the script, must be identical entry by entry (event or error compared structurally, buffer_position before and after, error_position), including 3 calls after Eof; in a third of the random cases (and once per exhaustively chunked input) raw reads through Reader::stream() are interleaved between events and must return the same bytes and leave the same positions. Exhaustive: every byte string up to length N over the 13 markup bytes with piece size 1 and one random cut set; ALL 2^(n-1) cut sets for every atom sequence (<= 3 atoms) and pool document of at most 11-13 bytes; all pending scripts with <= 2 Pendings per piece for inputs of <= 4 pieces. Random: grammar documents, mutants, corpus with piece sizes 1,2,3,7 and random cut sets/scripts; 4 configurations. When the input starts with a possible BOM / UTF-16 signature byte the first piece is forced to >= 4 bytes. Non-trivial = input contains '<' and at least one cut.",
     assumptions: &[
         "the slice trace is the baseline (it is judged against R_tok by C01)",
         "ChunkedRead/AsyncChunked (harness/src/sources.rs) implement the BufRead/AsyncBufRead contracts",
@@ -24,7 +24,7 @@ pub const SPEC: PropSpec = PropSpec {
     required: &[
         "cut.in_comment_open", "cut.in_comment_close_1", "cut.in_comment_close_2", "cut.in_cdata_open", "cut.in_cdata_close_1",
         "cut.in_cdata_close_2", "cut.in_pi_close", "cut.in_quoted_value", "cut.in_doctype_brackets", "cut.between_slash_gt",
-        "cut.after_lt", "cut.in_bom_exception_inputs", "pendings_delivered", "async_runs", "buffered_runs", "exhaustive_cutset_inputs",
+        "cut.after_lt", "cut.in_bom_exception_inputs", "pendings_delivered", "async_runs", "buffered_runs", "exhaustive_cutset_inputs", "raw_stream_reads",
     ],
     run,
     replay,
@@ -43,6 +43,7 @@ pub struct Local {
     exh_inputs: u64,
     max_cutsets: u64,
     bom_exc: u64,
+    raw_reads: u64,
 }
 
 fn first_min(input: &[u8]) -> usize {
@@ -185,6 +186,10 @@ fn run_case(
 ) -> bool {
     ctx.journal(|| case_json(input, cfg, cuts, pending));
     let mut h = H::new().bytes(input).u64(cfg.base as u64);
+    for (i, n) in &cfg.raw {
+        h = h.u64(0x5700 + ((*i as u64) << 8) + *n as u64);
+        loc.raw_reads += 1;
+    }
     for c in cuts {
         h = h.u64(*c as u64);
     }
@@ -300,8 +305,12 @@ fn run(ctx: &mut Ctx) {
         if fmin > 0 {
             loc.bom_exc += 1;
         }
-        for cb in CONFIGS {
-            let cfg = CfgHist::fixed(cb);
+        for (ci, cb) in CONFIGS.into_iter().chain([CFG_DEFAULT]).enumerate() {
+            let mut cfg = CfgHist::fixed(cb);
+            if ci == 3 {
+                // the same enumeration once more with a raw stream() read of 3 bytes after the first event
+                cfg.raw = vec![(0, 3)];
+            }
             let base = trace_slice(input, &cfg);
             let mut count = 0u64;
             for mask in 0u64..(1u64 << n) {
@@ -372,7 +381,15 @@ fn run(ctx: &mut Ctx) {
             2 => CFG_ALL_ON,
             _ => (r.next() & 0x7F) as u8,
         };
-        let cfg = CfgHist::fixed(cb);
+        let mut cfg = CfgHist::fixed(cb);
+        if r.chance(1, 3) {
+            // raw reads through Reader::stream() between events (1-2 reads of 1-9 bytes)
+            for _ in 0..1 + r.below(2) {
+                cfg.raw.push((r.below(6) as u32, 1 + r.below(9) as u8));
+            }
+            cfg.raw.sort();
+            cfg.raw.dedup_by_key(|x| x.0);
+        }
         let base = trace_slice(input, &cfg);
         let big = input.len() > 4096;
         for piece in [1usize, 2, 3, 7] {
@@ -418,6 +435,7 @@ fn run(ctx: &mut Ctx) {
     ctx.add("async_runs", loc.async_runs);
     ctx.add("buffered_runs", loc.buffered_runs);
     ctx.add("exhaustive_cutset_inputs", loc.exh_inputs);
+    ctx.add("raw_stream_reads", loc.raw_reads);
     ctx.max("max.cutsets_per_input", loc.max_cutsets);
 }
 
